@@ -30,7 +30,6 @@ NA = {
     "C10": "derivative rules are formulas; correctness is an analytic identity per rule (only the visitor-protocol clause is structural, too small to claim).",
     "C11": "substitution preserves value / cache independence: depends on which sub-terms match at run time.",
     "C14": "LLVM evaluator: WITH_LLVM is off in the pinned build (the unit is never compiled) and the property is about the numeric result of generated machine code.",
-    "C15": "generated C must be compiled and run to compare values; no C semantics of emitted text is derivable from the printer's shape.",
     "C21": "univariate polynomial arithmetic vs schoolbook: Kronecker packing widths and coefficient arithmetic are run-time quantities.",
     "C22": "multivariate polynomial arithmetic / variable reconciliation: index translation vectors are run-time data.",
     "C23": "GF(p) arithmetic and factorisation: number-theoretic algorithms with randomised steps; value-level.",
